@@ -62,6 +62,9 @@ func (u *Universe) MethodSource(need map[string]bool) (string, map[string]bool) 
 			switch t.EqualMethod {
 			case "derived":
 				fmt.Fprintf(&sb, "func (this *%s) Equal(that *%s) bool { return deriveEqualM%s(this, that) }\n\n", t.Name, t.Name, t.Name)
+			case "customi":
+				imps["strings"] = true
+				fmt.Fprintf(&sb, "func (this *%[1]s) Equal(that interface{}) bool {\n\to, ok := that.(*%[1]s)\n\tif !ok {\n\t\treturn false\n\t}\n\tif this == nil || o == nil {\n\t\treturn this == nil && o == nil\n\t}\n\treturn strings.ToLower(this.Word) == strings.ToLower(o.Word)\n}\n\n", t.Name)
 			case "customv":
 				imps["strings"] = true
 				fmt.Fprintf(&sb, "func (this %s) Equal(that %s) bool { return strings.ToLower(this.Word) == strings.ToLower(that.Word) }\n\n", t.Name, t.Name)
@@ -74,6 +77,9 @@ func (u *Universe) MethodSource(need map[string]bool) (string, map[string]bool) 
 			switch t.CompareMethod {
 			case "derived":
 				fmt.Fprintf(&sb, "func (this *%s) Compare(that *%s) int { return deriveCompareM%s(this, that) }\n\n", t.Name, t.Name, t.Name)
+			case "customi":
+				imps["strings"] = true
+				fmt.Fprintf(&sb, "func (this *%[1]s) Compare(that interface{}) int {\n\to, _ := that.(*%[1]s)\n\tif this == nil {\n\t\tif o == nil {\n\t\t\treturn 0\n\t\t}\n\t\treturn -1\n\t}\n\tif o == nil {\n\t\treturn 1\n\t}\n\treturn strings.Compare(strings.ToLower(this.Word), strings.ToLower(o.Word))\n}\n\n", t.Name)
 			case "customd":
 				// a hand-written Compare that returns a difference, not -1/0/+1 (N is an int32: no overflow)
 				fmt.Fprintf(&sb, "func (this %s) Compare(that %s) int { return int(this.N) - int(that.N) }\n\n", t.Name, t.Name)
